@@ -1384,18 +1384,58 @@ pub fn aborteq(args: &[String]) -> i32 {
             b.make_move(&m);
         }
     }
+    let with_hist = arg(args, "--hist", "0") == "1";
+    // a game history in which every position of a four-move round trip from b has occurred twice (as the position command
+    // records it: the position before each move), so that the first move of the round trip is a third occurrence
+    let cycle_history = |b: &Board, rng: &mut rand::rngs::StdRng| -> Vec<Board> {
+        let quiet = |x: &Board| -> Vec<Move> {
+            mg.generate_moves(x).into_iter().filter(|m| m.move_type == MoveType::Quiet && m.piece_type != crate::pieces::Piece::Pawn).collect()
+        };
+        for _ in 0..12 {
+            let q1 = quiet(b);
+            if q1.is_empty() {
+                return vec![];
+            }
+            let m1 = q1[rng.gen_range(0..q1.len())];
+            let p1 = b.clone_with_move(&m1);
+            let q2 = quiet(&p1);
+            if q2.is_empty() {
+                continue;
+            }
+            let m2 = q2[rng.gen_range(0..q2.len())];
+            let p2 = p1.clone_with_move(&m2);
+            let back1 = quiet(&p2).into_iter().find(|m| m.from == m1.to && m.to == m1.from);
+            if let Some(b1) = back1 {
+                let p3 = p2.clone_with_move(&b1);
+                if let Some(b2) = quiet(&p3).into_iter().find(|m| m.from == m2.to && m.to == m2.from) {
+                    if proj::project(&p3.clone_with_move(&b2)) == proj::project(b) {
+                        return vec![*b, p1, p2, p3, *b, p1, p2, p3];
+                    }
+                }
+            }
+        }
+        vec![]
+    };
     let mut s = Searcher::new();
     for b in boards.iter() {
         if !proj::playable_board(b) || mg.generate_moves(b).is_empty() {
             continue;
         }
+        let hist: Vec<Board> = if with_hist { cycle_history(b, &mut rng) } else { vec![] };
+        let succ: Vec<Board> = mg.generate_moves(b).iter().map(|m| b.clone_with_move(m)).collect();
         for d in 2..=depth {
             // reference: a fresh engine, one fixed-depth search; and the number of polls of a complete iterative search
             let r = catch_unwind(AssertUnwindSafe(|| {
                 s.verif_reset();
+                for h in &hist {
+                    s.push_position(h);
+                }
                 crate::timer::verif::set_poll_limit(None);
                 let (v, _) = s.verif_search_fixed(b, d);
                 s.verif_reset();
+                for h in &hist {
+                    s.push_position(h);
+                }
                 let _ = s.find_best_move(b, d, None);
                 (v, crate::timer::verif::poll_stats().0)
             }));
@@ -1415,25 +1455,32 @@ pub fn aborteq(args: &[String]) -> i32 {
                 let j = if i == 0 { 1 } else { rng.gen_range(1..=polls.max(1)) };
                 let r = catch_unwind(AssertUnwindSafe(|| {
                     s.verif_reset();
+                    for h in &hist {
+                        s.push_position(h);
+                    }
+                    // what the engine answers about the game history BEFORE the interrupted search (one answer per successor) ...
+                    let before: Vec<bool> = succ.iter().map(|c| s.verif_is_repetition_draw(b, c)).collect();
                     crate::timer::verif::set_poll_limit(Some(j));
                     let _ = s.find_best_move(b, d, None);
                     crate::timer::verif::set_poll_limit(None);
                     let rep = s.verif_repetition_len();
+                    // ... and AFTER it
+                    let after: Vec<bool> = succ.iter().map(|c| s.verif_is_repetition_draw(b, c)).collect();
                     crate::search::verif::reset_counters();
                     let (v2, _) = s.verif_search_fixed(b, d);
-                    (v2, rep, crate::search::verif::counters().1)
+                    (v2, rep, crate::search::verif::counters().1, before, after)
                 }));
                 crate::timer::verif::set_poll_limit(None);
                 match r {
-                    Ok((_, _, deeper)) if deeper > 0 => excluded += 1,
-                    Ok((v2, rep, _)) => runs.push(json!([j, clamp(v2), rep])),
+                    Ok((_, _, deeper, _, _)) if deeper > 0 => excluded += 1,
+                    Ok((v2, rep, _, before, after)) => runs.push(json!([j, clamp(v2), rep, before, after])),
                     Err(_) => {
-                        runs.push(json!([j, 99999999, 0]));
+                        runs.push(json!([j, 99999999, 0, [], []]));
                         s = Searcher::new();
                     }
                 }
             }
-            writeln!(w, "{}", json!({"ev":"aborteq","fen":proj::project(b),"pos":proj::project_struct(b),"d":d,"fresh":clamp(fresh),
+            writeln!(w, "{}", json!({"ev":"aborteq","fen":proj::project(b),"pos":proj::project_struct(b),"d":d,"fresh":clamp(fresh),"hist":hist.len(),
                                      "polls":polls,"runs":runs,"excluded_deeper_entry_reused":excluded})).ok();
         }
     }
